@@ -725,9 +725,9 @@ impl Harness for C11 {
         let lattice_leaves = pl.leaves;
         let mut jobs = pl.jobs;
         jobs.sort_by_key(|j| j.0);
-        // the cheap family / offset jobs run right after the small lattice spaces (n*p <= 6), so that a
+        // the cheap family / offset jobs run right after the smallest lattice spaces (n*p <= 2), so that a
         // run cut short by its wall budget has still covered them
-        let split = jobs.iter().position(|j| (j.0 >> 40) > 6).unwrap_or(jobs.len());
+        let split = jobs.iter().position(|j| (j.0 >> 40) > 2).unwrap_or(jobs.len());
         let mut late: Vec<Job> = jobs.split_off(split).into_iter().map(|j| j.1).collect();
         let mut jobs: Vec<Job> = jobs.into_iter().map(|j| j.1).collect();
         // ---- structured families
